@@ -73,7 +73,7 @@ var queueTable = []queueSpec{
 	{"stream.rCh", "client.NewStream", "chan *pb.Body", 0,
 		[]string{"client.clientStream.RecvMsg"}, []string{"client.clientStream.readLoop"}, []string{"stream.deferred"}, true, "bodies from the stream read loop to RecvMsg"},
 	{"conn.writeChan", "goat.newHandler", "chan *pb.Rpc", 0,
-		[]string{"serve.writer"}, []string{"serve.worker", "runStream.writer"}, nil, true, "single writer queue of a server connection"},
+		[]string{"serve.writer"}, []string{"serve.worker", "runStream.writer", "goat.handler.resetStream"}, nil, true, "single writer queue of a server connection"},
 	{"conn.unaryRpcChan", "goat.newHandler", "chan goat.unaryRpcArgs", 0,
 		[]string{"serve.worker"}, []string{"goat.handler.serve"}, nil, false, "unary requests to the worker pool (N consumers: only unary envelopes may enter)"},
 	{"srvstream.ch", "goat.handler.processStreamingRpc", "chan *pb.Rpc", 0,
@@ -87,9 +87,11 @@ var queueTable = []queueSpec{
 	{"proxy.fromServer.dialled", "goat.Proxy.addOutgoingConnectionLocked", "chan *pb.Rpc", 0,
 		[]string{"goat.proxyClient.writeLoop"}, []string{"goat.Proxy.forwardRpc"}, nil, true, "per-destination buffer"},
 	{"demux.r", "goat.Demux.newConnLocked", "chan *pb.Rpc", 0,
-		[]string{"chan.read"}, []string{"goat.Demux.Run"}, []string{"goat.Demux.Cancel"}, true, "shared transport → logical connection"},
+		[]string{"goat.demuxConn.Read"}, []string{"goat.Demux.Run"}, nil, true, "shared transport → logical connection (never closed: cancellation is signalled on demux.done)"},
 	{"demux.w", "goat.Demux.newConnLocked", "chan *pb.Rpc", 1,
-		[]string{"demux.connWriter"}, []string{"chan.write"}, []string{"goat.Demux.Cancel"}, true, "logical connection → shared transport"},
+		[]string{"demux.connWriter"}, []string{"goat.demuxConn.Write"}, nil, true, "logical connection → shared transport (never closed)"},
+	{"demux.done", "goat.Demux.newConnLocked", "chan struct{}", 0,
+		[]string{"goat.Demux.Run", "demux.connWriter", "goat.demuxConn.Read", "goat.demuxConn.Write"}, nil, []string{"goat.Demux.Cancel"}, false, "cancellation signal of a logical connection"},
 	{"http.readCh", "goat.GoatOverHttp.retrieve", "chan *pb.Rpc", 0,
 		[]string{"goat.httpReadWriter.Read"}, []string{"goat.GoatOverHttp.ServeHTTP"}, nil, true, "HTTP deliveries (never closed: closure is signalled on http.done)"},
 	{"http.done", "goat.GoatOverHttp.retrieve", "chan struct{}", 0,
